@@ -9,6 +9,8 @@ package main
 import (
 	"bufio"
 	"fmt"
+	"os"
+	"path/filepath"
 	"strings"
 )
 
@@ -33,6 +35,32 @@ var c02PinnedExtra = []c02Pinned{
 		Note: "same with skip_runtime (which disables the strict unmarshaller)"},
 }
 
+// pinned inputs of the findings of the all-language stream (Java); run through the same runner
+type c02PinnedLang struct {
+	ID     string
+	Src    string
+	Format string
+	Combo  c02Combo
+	Note   string
+}
+
+var c02PinnedLangs = []c02PinnedLang{
+	{ID: "java/integer-enum-member-named-by-its-number", Format: "jsonschema", Combo: c02Combo{Go: defaultGoFlags(), LangMarshal: true},
+		Src: `(defs "Root" ("Root" (struct (field "a" (enumI 1 2) true false -))))`},
+	{ID: "java/union-class-refers-to-serializers-without-json-marshaller", Format: "jsonschema", Combo: c02Combo{Go: defaultGoFlags(), Builders: true},
+		Src: `(defs "Root" ("Root" (struct (field "a" (oneOfScalars (string - - false) (bool)) true false -))))`},
+	{ID: "java/builders-with-skip-runtime-import-missing-runtime", Format: "jsonschema", Combo: c02Combo{Go: defaultGoFlags(), Builders: true, LangMarshal: true, LangSkipRT: true},
+		Src: `(defs "Root" ("Root" (struct (field "a" (string - - false) true false -))))`},
+	{ID: "java/int-literal-for-boxed-long-in-builder", Format: "jsonschema", Combo: c02Combo{Go: defaultGoFlags(), Builders: true, LangMarshal: true},
+		Src: `(defs "Root" ("Root" (struct (field "a" (const (n "6")) false false -) (field "b" (bool) true false -))))`},
+	{ID: "java/int-literal-default-for-short-or-byte", Format: "cue", Combo: c02Combo{Go: defaultGoFlags(), LangMarshal: true},
+		Src: `(defs "Root" ("Root" (struct (field "t" (ref "Child") false false (o ("n" (n "5")))))) ("Child" (struct (field "n" (int 16 true - -) true false -) (field "name" (bool) false true -))))`},
+	{ID: "java/constraint-literal-beyond-int-range", Format: "openapi", Combo: c02Combo{Go: defaultGoFlags(), Builders: true, LangMarshal: true},
+		Src: `(defs "Root" ("Root" (struct (field "labels" (int 64 true 0 4294967295) false false (n "48")))))`},
+	{ID: "java/struct-default-any-member-printed-as-unknown", Format: "cue", Combo: c02Combo{Go: defaultGoFlags(), LangMarshal: true},
+		Src: `(defs "Root" ("Root" (struct (field "t" (ref "Child") false false (o ("name" false))))) ("Child" (struct (field "mode" (any) true false -) (field "name" (bool) false true -))))`},
+}
+
 func c02PinnedCorpus() []c02Pinned {
 	out := []c02Pinned{}
 	for _, kb := range knownBadCorpus {
@@ -47,66 +75,78 @@ func c02PinnedCorpus() []c02Pinned {
 
 func init() {
 	register("c02-known", func(args map[string]string, out *bufio.Writer) error {
-		for _, pin := range c02PinnedCorpus() {
-			if only, ok := args["id"]; ok && !strings.Contains(pin.ID, only) {
-				continue
-			}
-			var d *Defs
-			if pin.Text == "" {
-				var err error
-				if d, err = parseDefsSexp(pin.Src); err != nil {
-					return fmt.Errorf("%s: %w", pin.ID, err)
-				}
-			}
+		type ent struct {
+			pin   c02Pinned
+			c     *LabCase
+			frag  *c02Fragment
+			combo c02Combo
+			flags GoFlags
+		}
+		// one lab per degradation level (a lab-wide option); flags, builders and the OpenAPI mapping
+		// style are per case
+		for _, degrade := range []int{0, 1} {
 			opts := defaultLabOpts()
-			opts.Degrade = pin.Degrade
+			opts.Degrade = degrade
 			opts.Keep = args["keep"] == "1"
-			saved := oaMappingStyle
-			if pin.Mapping != "" {
-				oaMappingStyle = pin.Mapping
-			}
-			tag := strings.NewReplacer("/", "-", " ", "").Replace(pin.ID)
-			lab, err := NewLab(labWorkDir("c02known-"+tag+pin.GoFlags), opts)
+			lab, err := NewLab(labWorkDir(fmt.Sprintf("c02known-%d", degrade)), opts)
 			if err != nil {
 				return err
 			}
-			flags := defaultGoFlags()
-			if pin.GoFlags != "" {
-				flags = goFlagsOfBits(pin.GoFlags)
-			}
-			combo := c02Combo{Go: flags, Builders: pin.Builders}
-			type ent struct {
-				c    *LabCase
-				frag *c02Fragment
-			}
-			ents := []ent{}
-			for _, f := range pin.Formats {
-				var c *LabCase
-				if pin.Text != "" {
-					c = lab.AddCaseText(f, pin.Text, nil)
-				} else {
-					c = lab.AddCaseWith(d, f, flags, pin.Builders, false)
+			ents := []*ent{}
+			for _, pin := range c02PinnedCorpus() {
+				if only, ok := args["id"]; ok && !strings.Contains(pin.ID, only) {
+					continue
 				}
-				e := ent{c: c}
-				if c.generated() {
-					if src, ok := c.Files["go/"+c.ID+"/types_gen.go"]; ok {
-						if frag, err := c02ExtractFragment(src, "frag"+c.ID); err == nil {
-							e.frag = frag
-							lab.AddGoExt("frag"+c.ID, map[string]string{"frag.go": frag.Source})
-						}
+				if pin.Degrade != degrade {
+					continue
+				}
+				var d *Defs
+				if pin.Text == "" {
+					if d, err = parseDefsSexp(pin.Src); err != nil {
+						lab.Close()
+						return fmt.Errorf("%s: %w", pin.ID, err)
 					}
 				}
-				ents = append(ents, e)
+				flags := defaultGoFlags()
+				if pin.GoFlags != "" {
+					flags = goFlagsOfBits(pin.GoFlags)
+				}
+				saved := oaMappingStyle
+				if pin.Mapping != "" {
+					oaMappingStyle = pin.Mapping
+				}
+				for _, f := range pin.Formats {
+					var c *LabCase
+					if pin.Text != "" {
+						c = lab.AddCaseText(f, pin.Text, nil)
+					} else {
+						c = lab.AddCaseWith(d, f, flags, pin.Builders, false)
+					}
+					e := &ent{pin: pin, c: c, flags: flags, combo: c02Combo{Go: flags, Builders: pin.Builders}}
+					if c.generated() {
+						if src, ok := c.Files["go/"+c.ID+"/types_gen.go"]; ok {
+							if frag, err := c02ExtractFragment(src, "frag"+c.ID); err == nil {
+								e.frag = frag
+								lab.AddGoExt("frag"+c.ID, map[string]string{"frag.go": frag.Source})
+							}
+						}
+					}
+					ents = append(ents, e)
+				}
+				oaMappingStyle = saved
 			}
-			oaMappingStyle = saved
+			if len(ents) == 0 {
+				lab.Close()
+				continue
+			}
 			if err := lab.Build(); err != nil {
 				lab.Close()
-				return fmt.Errorf("%s: %w", pin.ID, err)
+				return err
 			}
 			for _, e := range ents {
-				c := e.c
-				uid := tag + pin.GoFlags + "-" + c.ID
-				trig := c02Triggers(c.Defs, combo)
+				c, pin := e.c, e.pin
+				uid := fmt.Sprintf("k%d-%s", degrade, c.ID)
+				trig := c02Triggers(c.Defs, e.combo)
 				switch {
 				case c.SchemaText == "":
 					fmt.Fprintf(out, "-\tknown %s %s unsupported-by-format\tok\n", pin.ID, c.Format)
@@ -122,24 +162,24 @@ func init() {
 						verdict = "illtyped:" + c02FirstDiag(diag)
 					}
 					fmt.Fprintf(out, "defschemas %s %s\tok\tok\n", uid, virSchemas(c.IRGo))
-					fmt.Fprintf(out, "godecl %s %s %s\t%s %s\tok\n", uid, c.ID, goFlagBits(flags), verdict, e.frag.Stripped)
+					fmt.Fprintf(out, "godecl %s %s %s\t%s %s\tok\n", uid, c.ID, goFlagBits(e.flags), verdict, e.frag.Stripped)
 				}
 				failed := false
 				if !c.GoOK && !strings.HasPrefix(c.GoCompileErr, "glue: ") {
 					failed = true
 					fmt.Fprintf(out, "-\tknown %s %s go-compile %s\tFAIL go-compile pinned=%s %s diag=%s\n", pin.ID, c.Format, labOneLine(labFirstLine(c.GoCompileErr)),
-						pin.ID, c02CaseText("go", c02FirstDiag(c.GoCompileErr), trig, combo.String(), c.Format, c.Defs), labOneLine(labFirstLine(c.GoCompileErr)))
+						pin.ID, c02CaseText("go", c02FirstDiag(c.GoCompileErr), trig, e.combo.String(), c.Format, c.Defs), labOneLine(labFirstLine(c.GoCompileErr)))
 				}
 				if !c.PyOK {
 					failed = true
 					fmt.Fprintf(out, "-\tknown %s %s py-import %s\tFAIL py-import pinned=%s %s diag=%s\n", pin.ID, c.Format, labOneLine(c.PyImportErr),
-						pin.ID, c02CaseText("python", c02PyClass(c.PyImportErr), trig, combo.String(), c.Format, c.Defs), labOneLine(c.PyImportErr))
+						pin.ID, c02CaseText("python", c02PyClass(c.PyImportErr), trig, e.combo.String(), c.Format, c.Defs), labOneLine(c.PyImportErr))
 				}
 				if hits, _ := c02ScanFiles(c.Files); len(hits) > 0 {
 					failed = true
 					parts := strings.SplitN(hits[0], " in ", 2)
 					fmt.Fprintf(out, "-\tknown %s %s placeholder %s\tFAIL placeholder pinned=%s %s hits=%s\n", pin.ID, c.Format, hits[0],
-						pin.ID, c02CaseText(c02LangOf(parts[1]), "placeholder:"+parts[0], trig, combo.String(), c.Format, c.Defs), strings.Join(hits, ";"))
+						pin.ID, c02CaseText(c02LangOf(parts[1]), "placeholder:"+parts[0], trig, e.combo.String(), c.Format, c.Defs), strings.Join(hits, ";"))
 				}
 				if !failed {
 					fmt.Fprintf(out, "-\tknown %s %s not-reproduced-at-compile-time\tok\n", pin.ID, c.Format)
@@ -147,6 +187,48 @@ func init() {
 			}
 			lab.Close()
 		}
-		return nil
+		// findings of the all-language stream
+		work := labWorkDir("c02known-langs")
+		defer os.RemoveAll(work)
+		cases := []*c02LangCase{}
+		pinOf := map[string]c02PinnedLang{}
+		for i, pin := range c02PinnedLangs {
+			if only, ok := args["id"]; ok && !strings.Contains(pin.ID, only) {
+				continue
+			}
+			d, err := parseDefsSexp(pin.Src)
+			if err != nil {
+				return fmt.Errorf("%s: %w", pin.ID, err)
+			}
+			id := fmt.Sprintf("p%d%s", i, labFormatSuffix[pin.Format])
+			c := &c02LangCase{ID: id, Format: pin.Format, Combo: pin.Combo, Group: fmt.Sprintf("pin%d", i), Defs: d}
+			pinOf[id] = pin
+			cases = append(cases, c)
+			ro := renderDefs(d, pin.Format, id)
+			if ro.Text == "" {
+				c.GenErr = "unsupported-by-format"
+				continue
+			}
+			path, err := writeSchemaFile(filepath.Join(work, "schemas"), pin.Format, id, ro.Text)
+			if err != nil {
+				return err
+			}
+			o := c02Opts{Types: true, Builders: pin.Combo.Builders, Converters: pin.Combo.Converters, APIRef: pin.Combo.APIRef, Go: pin.Combo.Go,
+				EnumsAsUnion: pin.Combo.EnumsAsUnion, LangMarshal: pin.Combo.LangMarshal, LangSkipRuntime: pin.Combo.LangSkipRT, Langs: []string{"java"}}
+			p, err := c02Pipeline(pin.Format, path, id, nil, o, work)
+			if err != nil {
+				return err
+			}
+			files, err := c02Run(p)
+			if err != nil {
+				c.GenErr = err.Error()
+				continue
+			}
+			c.Files = files
+		}
+		_, err := c02ReportLangs(out, work, cases, func(c *c02LangCase, lang, class string) string {
+			return "pinned=" + pinOf[c.ID].ID + " " + c02CaseText(lang, class, c02Triggers(c.Defs, c.Combo), c.Combo.String(), c.Format, c.Defs)
+		})
+		return err
 	})
 }
